@@ -73,5 +73,16 @@ TryPlayOK == \A m \in Legal(pos) : IsLegalImpl(bd, m)
 SanCanonical == LET lg == Legal(pos) IN
                 Cardinality({San(pos, lg, m) : m \in lg}) = Cardinality(lg)
 
+\* C07: the canonical record determines the position (reading it back gives the position: the text is injective),
+\* it is structurally sound, and plain FEN does the same whenever every right is on the a/h file
+CanonRoundTrip == LET d == Denote(CanonCp(pos, TRUE), 1) IN
+                  /\ d.ok /\ AsPos(d.bs) = pos /\ Structural(CanonCp(pos, TRUE))
+                  /\ (AHRights(pos) => LET e == Denote(CanonCp(pos, FALSE), 0) IN e.ok /\ AsPos(e.bs) = pos)
+\* C13: against the same position with the ep file cleared (the case that matters for repetition)
+NoEp == [pos EXCEPT !.ep = -1]
+SameVsNoEp == pos.ep = -1 \/ ImplStage(NoEp) # "ok" \/
+              (/\ SamePositionImpl(bd, BoardOf(NoEp)) = SamePos(pos, NoEp)
+               /\ SamePositionImpl(BoardOf(NoEp), bd) = SamePos(NoEp, pos))
+
 Sample == TLCGet("level") > 1 \/ PrintT(<<"SAMPLE", "root", CanonFen(pos, TRUE), Cardinality(Legal(pos))>>)
 =============================================================================
